@@ -55,46 +55,54 @@ TMAX = UMAX // CAP          # beyond this many seconds the saturating accumulato
 
 
 def apy_obligations():
-    """Inputs are the start time and the elapsed seconds (now = start + elapsed is passed to the code): with the
-    elapsed seconds confined to one week the encoder's interval folding makes the bucket-loop trip count concrete."""
+    """Inputs are the start time and the position inside the current week: elapsed = fw*W + rem (and, for the last case,
+    + e*W extra weeks); now = start + elapsed is what the code receives.  With this shape the encoder folds the
+    division / remainder by the week length and the bucket-loop trip count is concrete in every case."""
     out = []
     names = [f"a{k}" for k in range(NB)]
-    inputs = [("start", "i64"), ("el", "i64")] + [(n, "u128") for n in names]
     al = ", ".join(names)
-    rust = (f"let g: [u128; {NB}] = [{al}];\n"
-            f"            let r = {HOOK}::compute_time_weighted_apy(start, start + el, &g); println!(\"v={{}}\", r);")
     I64MAX = 2 ** 63 - 1
     caps = {n: (0, CAP) for n in names}
-
-    def args(v):
-        from terms import t_add
-        from symex import I as Int
-        return [v["start"], Int(t_add(v["start"].t, v["el"].t), "i64"), Ref(Tup([v[n] for n in names]))]
-
-    def weighted(i, fw):
-        s = E(0)
-        for j in range(fw):
-            s = s + i[f"a{j}"] * W
-        return s + i[f"a{fw}"] * (i["el"] - fw * W)
-    out.append(Obl("compute_time_weighted_apy [now <= start]", path_fn("compute_time_weighted_apy"), inputs, args, view_plain, rust,
+    from terms import t_add, t_mul
+    from symex import I as Int
+    out.append(Obl("compute_time_weighted_apy [now <= start]", path_fn("compute_time_weighted_apy"),
+                   [("start", "i64"), ("back", "i64")] + [(n, "u128") for n in names],
+                   lambda v: [v["start"], Int(__import__("terms").t_sub(v["start"].t, v["back"].t), "i64"), Ref(Tup([v[n] for n in names]))], view_plain,
+                   f"let g: [u128; {NB}] = [{al}];\n            let r = {HOOK}::compute_time_weighted_apy(start, start - back, &g); println!(\"v={{}}\", r);",
                    lambda i, o: [("now <= start => the first bucket's APY", o["v"].eq(i["a0"]))],
                    lambda i, o: [("reachable", i["a0"] > 0)], None,
-                   assume=lambda i: i["start"] + i["el"] >= -I64MAX - 1, bounds=dict(caps, el=(-I64MAX, 0)), unroll=NB - 1, key="apy"))
+                   assume=lambda i: i["start"] - i["back"] >= -I64MAX - 1, bounds=dict(caps, back=(0, I64MAX)), unroll=NB - 1, key="apy_back"))
     for fw in range(NB):
         last = fw == NB - 1
+        inputs = [("start", "i64"), ("rem", "i64")] + ([("e", "i64")] if last else []) + [(n, "u128") for n in names]
+        emax = (min(TMAX, I64MAX) - fw * W) // W - 1
 
-        def spec(i, o, fw=fw):
-            s = weighted(i, fw)
+        def el_term(v, fw=fw, last=last):
+            t = t_add(fw * W, v["rem"].t)
+            return t_add(t_mul(v["e"].t, W), t) if last else t
+
+        def args(v, el_term=el_term):
+            return [v["start"], Int(t_add(v["start"].t, el_term(v)), "i64"), Ref(Tup([v[n] for n in names]))]
+
+        def spec(i, o, fw=fw, last=last):
+            el = (i["e"] * W + (fw * W + i["rem"])) if last else (fw * W + i["rem"])
+            s = E(0)
+            for j in range(fw):
+                s = s + i[f"a{j}"] * W
+            s = s + ((i[f"a{fw}"] * (i["e"] * W) + i[f"a{fw}"] * i["rem"]) if last else i[f"a{fw}"] * i["rem"])
             r = o["v"]
             return [("result == floor(sum over every elapsed second of that second's weekly bucket / elapsed seconds) (weeks past the last bucket use the last one)",
-                     And(r * i["el"] <= s, s < (r + 1) * i["el"], r >= 0)),
+                     And(r * el <= s, s < (r + 1) * el, r >= 0)),
                     ("result <= 200% (within the cap of the gradient)", r <= CAP)]
         witness = fw in (0, 1, 7, 51, 52)
+        rust = (f"let g: [u128; {NB}] = [{al}];\n            let el: i64 = {fw * W} + rem" + (f" + e * {W}" if last else "") + ";\n"
+                f"            let r = {HOOK}::compute_time_weighted_apy(start, start + el, &g); println!(\"v={{}}\", r);")
         out.append(Obl(f"compute_time_weighted_apy [{fw}{' or more' if last else ''} full weeks elapsed]", path_fn("compute_time_weighted_apy"), inputs, args, view_plain, rust, spec,
                        (lambda i, o, fw=fw: [("buckets differ", And(o["v"] > 0, (i[f"a{fw}"] > i["a0"]) if fw else (o["v"] > 1)))]) if witness else None,
                        (lambda i, o, fw=fw: [("WRONG (twin): result == the current bucket's APY", o["v"].eq(i[f"a{fw}"]))]) if (witness and fw) else None,
-                       assume=lambda i: i["start"] + i["el"] <= I64MAX,
-                       bounds=dict(caps, start=(0, I64MAX), el=(max(fw * W, 1), min(TMAX, I64MAX) if last else (fw + 1) * W - 1)), unroll=NB - 1, key="apy"))
+                       assume=(lambda i, el_term=el_term: E(t_add(i["start"].t, el_term({k: Int(x.t, "i64") for k, x in i.items()}))) <= I64MAX),
+                       bounds=dict(caps, start=(0, I64MAX), rem=(1 if fw == 0 else 0, W - 1), **({"e": (0, emax)} if last else {})),
+                       unroll=NB - 1))
     return out
 
 
